@@ -4,12 +4,14 @@ import time
 from vlib.common import finish
 from vlib.bounded import Bounded
 from harness import c11 as driver
+from checks._proof import proof_subobligations
 
 PROP = 'C11'
 
 
 def run():
     t0 = time.time()
+    pv, pu, pe, ppart, passumed = proof_subobligations(PROP, ['contracts.c11_literals'], ['ak.ppobj', 'ak.color'])
     b = Bounded(PROP, 'harness.c11')
     driver.run(b)
     if b.tier == 'quick':
@@ -40,7 +42,13 @@ def run():
         extra={'clauses': ['C11.json_roundtrip', 'C11.python_roundtrip', 'C11.sorted_keys',
                            'C11.elements_preserved', 'C11.lines_equal_whole'],
                'tasks': b.notes.get('tasks')})
-    return finish(PROP, 'exploration', b.violations(), [], b.errors, cov,
+    cov.update(ppart)
+    _seen, _viol = set(), []
+    for _v in pv + b.violations():
+        if _v.key not in _seen:
+            _seen.add(_v.key)
+            _viol.append(_v)
+    return finish(PROP, 'exploration', _viol, pu, pe + b.errors, cov, passumed +
                   ["strings contain no double quote, single quote, backslash or control character (statement); "
                    "floats are finite (inf/nan are not JSON-like data and str() of them is no literal)",
                    "JSON mode is exercised with string dict keys only; python mode with string and int keys "
